@@ -77,6 +77,15 @@ class Walker:
         return self.collect(self.send(lines), timeout)
 
     def kill(self):
+        # let a walker that is still listening leave through main() (coverage data are written at exit), then make sure
+        try:
+            if self.p.poll() is None:
+                self.p.stdin.write(b"quit\n")
+                self.p.stdin.flush()
+                self.p.stdin.close()
+                self.p.wait(timeout=1.0)
+        except Exception:
+            pass
         try:
             self.p.kill()
         except Exception:
